@@ -15,7 +15,7 @@
    * Python exceptions of any kind are None.  Integers that must be lengths and are negative are
      outside the model (None).
    * str / bytes collapsed (Model/Bencode.v): `self.pieces.encode("utf-8")` of recheck.py
-     (lines 341-343 and 593-595, the repair of D37) is the identity here.
+     (in FeedChecker.__init__ and HashChecker.next_file, the repair of D37) is the identity here.
    * `self.pieces[start:end]` with start = count * N, end = start + N is the count-th element of
      [chunks N pieces] and b"" beyond it (nth .. []): OwnMetafiles.nth_chunks_slice.
    * FileHasher(path, piece_length, progress=2, progress_bar=..) is hybrid=False, padding=True
@@ -62,7 +62,7 @@ Definition piece_length_of (info : dict) : option nat :=
 
 (* what a piece checker finds at a listed path:
      if os.path.exists(path): ... open(path, "rb") ...   else: padding
-   (FeedChecker.iter_pieces 388-403 / extract 429; HashChecker.next_file 599-607).
+   (FeedChecker.iter_pieces / extract; HashChecker.next_file).
    Some None = absent, Some (Some d) = present with content d, None = open raises *)
 Definition disk_entry (fs : fsys) (p : cpath) : option (option bytes) :=
   if fs_exists fs p then
@@ -74,22 +74,31 @@ Variable H1 : bytes -> bytes.        (* sha1(x).digest() *)
 Variable H256 : bytes -> bytes.      (* sha256(x).digest() *)
 Variable B : nat.                    (* BLOCK_SIZE of hasher.py *)
 
-(* FeedChecker.__init__ (334-348) and the per-file reads of iter_pieces / extract:
+(* FeedChecker.__init__ and the per-file reads of iter_pieces / extract:
      self.piece_length = checker.piece_length
      self.paths = checker.paths ; self.fileinfo = checker.fileinfo
      self.pieces = checker.info["pieces"]
-   -> (piece length, fileinfo[i]["length"] for every i, what is on disk at paths[i] for every i,
-       self.pieces cut into SHA1-sized slices) *)
+   -> (piece length, fileinfo[i]["length"] for every i, what iter_pieces reads for entry i,
+       self.pieces cut into SHA1-sized slices).
+   iter_pieces (after the repair of D39):
+       padding = "p" in str(self.fileinfo[i].get("attr") or "")
+       if os.path.exists(path) and not padding: ... self.extract(path, partial) ...
+       else: ... self._gen_padding(partial, length) ...
+   a padding entry is zeros whatever the disk holds at its path: it is handed to Model/Recheck.v as an absent
+   file (None), which is how feed_trace / spec_trace_v1 model "missing = zeros". *)
+Definition feed_entry (fs : fsys) (fi : fileinfo) : option (option bytes) :=
+  if fi_padding fi then Some None else disk_entry fs (fi_path fi).
+
 Definition feed_init (fs : fsys) (info : dict) (fis : list fileinfo)
   : option (nat * list nat * list (option bytes) * list bytes) :=
   match piece_length_of info, lookup ck_pieces info,
         all_some (map (fun fi => nat_of_len (fi_length fi)) fis),
-        all_some (map (fun fi => disk_entry fs (fi_path fi)) fis) with
+        all_some (map (feed_entry fs) fis) with
   | Some pl, Some (BStr pieces), Some lens, Some disk => Some (pl, lens, disk, chunks SHA1_LEN pieces)
   | _, _, _, _ => None
   end.
 
-(* HashChecker.next_file (584-607) for one index:
+(* HashChecker.next_file for one index:
      self.length = self.fileinfo[self.index]["length"]
      self.root_hash = self.fileinfo[self.index]["pieces root"]
      if self.length > self.piece_length: self.pieces = self.piece_layers[self.root_hash]
@@ -100,7 +109,7 @@ Definition feed_init (fs : fsys) (info : dict) (fis : list fileinfo)
    root_hash None (walk_file_tree records None for an empty file; check_paths `leaf.get`):
    `self.piece_layers[None]` is a KeyError; `self.pieces = None` makes every later
    `self.pieces[a:b]` / `len(self.pieces)` a TypeError -- they are reached unless the recorded length
-   is 0 and the file on disk is absent or empty (process_current 629-641: StopIteration from the
+   is 0 and the file on disk is absent or empty (process_current: StopIteration from the
    hasher, then `self.length > 0` is False). *)
 Definition hash_file (fs : fsys) (layers : dict) (pl : nat) (fi : fileinfo) : option v2_file :=
   match nat_of_len (fi_length fi), disk_entry fs (fi_path fi) with
@@ -136,7 +145,7 @@ Definition hash_file (fs : fsys) (layers : dict) (pl : nat) (fi : fileinfo) : op
   | _, _ => None
   end.
 
-(* HashChecker.__init__ (489-499):  self.piece_layers = checker.meta["piece layers"]  + next_file
+(* HashChecker.__init__:  self.piece_layers = checker.meta["piece layers"]  + next_file
    for every index *)
 Definition hash_init (fs : fsys) (meta info : dict) (fis : list fileinfo)
   : option (nat * list v2_file) :=
@@ -276,6 +285,16 @@ Definition ex_tree_damaged : node :=
 Example ex_recheck_v1_damaged :
   recheck_model X1 X256 2 (disk_of ex_base ex_tree_damaged)
     (create_v1 X1 false ex_opts (bs "r") (bs "r") 4 ex_tree) ex_base = Some (18%Z, 14, 18).
+Proof. vm_compute. reflexivity. Qed.
+
+(* the payload of D39: it has a file of its own at a pad path (.pad/1 = "x"; a = pl - 1 bytes, so a's pad entry is
+   .pad/1 too).  The pad entry is zeros whatever is on disk: everything matches (before the repair: 4 of 8) *)
+Definition ex_tree_d39 : node :=
+  Dir [ (bs ".pad", Dir [(bs "1", File (bs "x"))]); (bs "a", File (bs "AAA")) ].
+
+Example ex_recheck_d39 :
+  recheck_model X1 X256 2 (disk_of ex_base ex_tree_d39)
+    (create_v1 X1 true ex_opts (bs "r") (bs "r") 4 ex_tree_d39) ex_base = Some (8%Z, 8, 8).
 Proof. vm_compute. reflexivity. Qed.
 
 End RecheckInitExamples.
